@@ -301,6 +301,7 @@ package app
 //@ define attachedIo(p *Process) bool = p.isMain || (p.procConf.IsElevated && !p.isTuiEnabled)
 
 //@ func (p *Process) getProcessStarter$1
+//@   requires state-locked: held(p.stateMtx)
 //@   ensures one-start: starts() == old(starts()) + 1 && startAfterWait(old(starts())) == lastWait() && lastWait() == old(lastWait())
 //@   ensures env: cmdEnv(p.command) == lastProcEnv() && cmdDir(p.command) == p.procConf.WorkingDir
 //@   ensures pgrp: !attachedIo(p) ==> pgrpSet(p.command)
@@ -487,6 +488,7 @@ package app
 
 // the visitor of the ordered branch only ever appends well-formed registered processes
 //@ func (p *ProjectRunner) ShutDownProject$1
+//@   preserves registry-locked: held(p.runProcMutex)
 //@   ensures listed: process.ReplicaName in p.runningProcesses ==> inOrder(shutdownOrder, p.runningProcesses[process.ReplicaName])
 //@   preserves wf: runnerWF(p)
 //@   preserves listwf: listWF(shutdownOrder)
@@ -642,6 +644,11 @@ package app
 
 // A replica that is added gets its OWN fresh state object and log buffer and its configuration under its replica
 // name; it is launched (exactly one instance) unless it is disabled or a foreground process.
+// called only from init(), before the runner is visible to any other goroutine
+//@ func (p *ProjectRunner) initProcessLogs
+//@   flag noguard
+//@   requires !held(p.logsMutex) && p.project.LogLength >= 0
+//@   loop 1 invariant !held(p.logsMutex) && p.processLogs != nil && p.project.LogLength >= 0
 //@ func (p *ProjectRunner) initProcessLog
 //@   requires p.processLogs != nil && p.project.LogLength >= 0 && !held(p.logsMutex)
 //@   ensures !held(p.logsMutex)
